@@ -59,12 +59,21 @@ class Scratch:
 def build_harness(race=False):
     """(Re)build the harness against /repo's current working tree, hooks on."""
     os.makedirs(BUILD, exist_ok=True)
-    shutil.copyfile(os.path.join(REPO, "go.sum"), os.path.join(HARNESS_SRC, "go.sum"))
+    src = HARNESS_SRC
+    if os.path.abspath(REPO) != "/repo":
+        # VERIF_REPO points at another checkout (e.g. a snapshot for a background run): build a copy of
+        # the harness whose go.mod replaces the module with that checkout
+        src = os.path.join(BUILD, "src-" + str(abs(hash(os.path.abspath(REPO)))))
+        shutil.rmtree(src, ignore_errors=True)
+        shutil.copytree(HARNESS_SRC, src)
+        gm = open(os.path.join(src, "go.mod")).read().replace("=> /repo", "=> " + os.path.abspath(REPO))
+        open(os.path.join(src, "go.mod"), "w").write(gm)
+    shutil.copyfile(os.path.join(REPO, "go.sum"), os.path.join(src, "go.sum"))
     out = os.path.join(BUILD, "harness-race" if race else "harness")
     tmp = out + ".%d.tmp" % os.getpid()
     cmd = ["go", "build", "-tags", "verif"] + (["-race"] if race else []) + ["-o", tmp, "."]
     t0 = time.time()
-    p = subprocess.run(cmd, cwd=HARNESS_SRC, env=goenv(), stdout=subprocess.PIPE,
+    p = subprocess.run(cmd, cwd=src, env=goenv(), stdout=subprocess.PIPE,
                        stderr=subprocess.STDOUT, text=True)
     if p.returncode != 0:
         raise Infra("harness build failed:\n" + p.stdout[-4000:])
